@@ -207,6 +207,57 @@ def discharge(ob: Obligation, rlimit):
     return dict(result="unknown", backend=backend, ms=round(ms, 1), reason=str(s.reason_unknown()))
 
 
+def discharge_isolated(ob, rlimit, wall_s):
+    """discharge() in a forked child with a wall-clock limit enforced by the parent: z3's own timeout / rlimit are not
+    always honoured inside nlsat.  A killed query is `unknown` (never a violation)."""
+    import json
+    import os
+    import select
+    import signal
+    r, w = os.pipe()
+    pid = os.fork()
+    if pid == 0:
+        try:
+            os.close(r)
+            try:
+                res = discharge(ob, rlimit)
+            except Exception as e:  # noqa: BLE001
+                res = dict(result="unknown", backend="z3", ms=0, reason=f"{type(e).__name__}: {e}")
+            data = json.dumps(res, default=str).encode()
+            while data:
+                n = os.write(w, data)
+                data = data[n:]
+        finally:
+            os._exit(0)
+    os.close(w)
+    buf = b""
+    deadline = time.time() + wall_s
+    killed = False
+    while True:
+        left = deadline - time.time()
+        if left <= 0:
+            killed = True
+            break
+        rd, _, _ = select.select([r], [], [], left)
+        if not rd:
+            killed = True
+            break
+        chunk = os.read(r, 65536)
+        if not chunk:
+            break
+        buf += chunk
+    os.close(r)
+    if killed:
+        try:
+            os.kill(pid, signal.SIGKILL)
+        except ProcessLookupError:
+            pass
+    os.waitpid(pid, 0)
+    if killed or not buf:
+        return dict(result="unknown", backend="z3-" + z3.get_version_string(), ms=round(wall_s * 1000), reason=f"wall-clock limit {wall_s}s (query killed)")
+    return json.loads(buf.decode())
+
+
 def verify_contract(index, registry, c: Contract, tier="quick"):
     """run pyvc on one contract; returns a result record (never raises)"""
     rlimit = RLIMIT_QUICK if tier == "quick" else RLIMIT_THOROUGH
@@ -261,7 +312,7 @@ def verify_contract(index, registry, c: Contract, tier="quick"):
             return rec
         rec["covers"] += ncov
         for ob in obls:
-            d = discharge(ob, rlimit)
+            d = discharge_isolated(ob, rlimit, 40 if tier == "quick" else 240)
             d.update(name=ob.name, kind=ob.kind, line=ob.line, note=ob.note)
             rec["obligations"].append(d)
     rec["wall_ms"] = round((time.time() - t0) * 1000)
